@@ -389,6 +389,11 @@ theorem step_safe (p : List (Prim L)) (hc : Closed p) (h : Head L) (hh : HeadOK 
         simp [hi]
         exact ⟨Nat.succ_le_of_lt hilt, hh.2⟩
       | false => simpa using hnext
+    | jump l =>
+      have hl := hc.targets _ hmem l (by simp [Prim.targets])
+      obtain ⟨i, hi, hilt, _⟩ := lookupLabel_of_mem p l hl
+      simp [hi]
+      exact ⟨Nat.succ_le_of_lt hilt, hh.2⟩
     | fork u ls =>
       obtain ⟨is, his, hb⟩ := lookupAll_of_defined p ls (fun l hl => hc.targets _ hmem l (by simpa [Prim.targets] using hl))
       simp [his]
@@ -614,6 +619,14 @@ theorem annot_step (ap : List (APrim L)) (ex : St L) (hch : Chain (LabSt ap) ap 
           | some j =>
             simp
             exact (jump_ok l hok.1 j hl).2
+      | jump l =>
+        simp only [okStep] at hok
+        simp only
+        cases hl : lookupLabel (ap.map Prod.fst) l with
+        | none => simp
+        | some j =>
+          simp
+          exact (jump_ok l hok j hl).2
       | fork u ls =>
         simp only [okStep] at hok
         simp only
